@@ -97,6 +97,13 @@ CHECKS = {
         note="No golden text is stored; only disagreement between runs is a violation.",
         design="3/C15",
     ),
+    "C14": dict(
+        level="exploration",
+        technique="runtime monitoring of concurrent client histories (call/return events from one monotonic clock) under stress: 1us switch interval + sys.monitoring yield injection in tensora/compile; result oracle = the same call made alone; crash observed per subprocess",
+        text="~3.7k calls per quick run from 2..16 threads mixing a cached kernel with varying inputs, a never-seen problem requested by all threads at once, distinct never-seen problems, cffi back end calls and concurrent del/gc; ~38k overlapping call pairs, ~14k overlapping cache-miss pairs, 360k injected yields; every result equals the sequential one.",
+        note="Not all interleavings: no controlled scheduler for CPython+native code exists here (TSan/helgrind unusable on CPython/JIT); evidence reports the overlap achieved.",
+        design="3/C14",
+    ),
 }
 
 PENDING = {
